@@ -558,11 +558,22 @@ Definition table_class (table : list Z) (all : list pterm) (p : pterm) : Z :=
   | None => -1
   end.
 
+(* ParamsGenerator.__init__: _check_tensor_names_are_unique — tensor names must
+   be unique over the WHOLE model (all subgraphs), ValueError otherwise *)
+Definition all_names (m : model) : list name_t :=
+  flat_map (fun g => map tname (sg_tensors g)) (m_subgraphs m).
+Fixpoint names_nodupb (l : list name_t) : bool :=
+  match l with
+  | [] => true
+  | x :: r => negb (existsb (name_eqb2 x) r) && names_nodupb r
+  end.
+
 Definition plan_checked_cls (mk_cls : list pterm -> pterm -> Z)
            (matches : Z -> Z -> bool) (rules : state)
            (scope_id : Z -> list stok -> Z) (m : model)
            (scopes : list (list bool)) (stats : option (list name_t))
   : res (list tplan * list (name_t * vterm)) :=
+  if negb (names_nodupb (all_names m)) then Err ValueError else
   r <- plan matches rules (m_buffers m) scope_id m scopes stats ;;
   check_buffer_sharing_with (m_buffers m) (mk_cls (terms_of (fst r))) m (fst r) ;;;
   Ok r.
